@@ -243,6 +243,67 @@ theorem collect_conserves (σ : Oracle) (hσ : σ.Valid) (pkg : Pkg) (hw : WellF
       · rw [← hso]
         exact survivors_labels hs'.1
 
+/-- `unknown_phase_only_fails`.  With validation on, an object that is READ from the package (whether
+or not the path / CEL filters would keep it) and whose phase annotation — the raw string, white space
+included — is not the name of a manifest phase makes rendering FAIL, for every iteration order; the
+failure is the validation error unless an earlier stage (cel context, templates, YAML) fails first.
+Such an object therefore never "silently disappears" from a successful render. -/
+theorem unknown_phase_only_fails (σ : Oracle) (hσ : σ.Valid) (pkg : Pkg) (hw : WellFormed pkg)
+    (files' : List File) (h : files' ~ pkg.files) (hv : pkg.validate = true)
+    {o : Obj} (ho : o ∈ allObjs (parsed pkg)) (hp : phaseOf o ∉ pkg.phases) :
+    ∃ e, render σ { pkg with files := files' } = .error e ∧
+      (e = .validate ∨ e = .celctx ∨ e = .tmplparse ∨ e = .tmplexec ∨ e = .yaml) := by
+  rw [render_eq_spec σ hσ pkg hw files' h, spec]
+  have hval : validateObjects pkg.phases (parsed pkg) = false := by
+    cases hvo : validateObjects pkg.phases (parsed pkg) with
+    | false => rfl
+    | true =>
+      exfalso
+      simp only [validateObjects, Bool.and_eq_true, all_eq_true] at hvo
+      exact hp (contains_iff_mem.mp (hvo.1 o ho).2.2)
+  have hm : ∃ e, mustFail pkg = some e ∧
+      (e = .validate ∨ e = .celctx ∨ e = .tmplparse ∨ e = .tmplexec ∨ e = .yaml) := by
+    simp only [mustFail, hv, hval]
+    split
+    · exact ⟨_, rfl, by simp⟩
+    split
+    · exact ⟨_, rfl, by simp⟩
+    split
+    · exact ⟨_, rfl, by simp⟩
+    split
+    · exact ⟨_, rfl, by simp⟩
+    exact ⟨.validate, by simp, by simp⟩
+  obtain ⟨e, he, hc⟩ := hm
+  exact ⟨e, by simp [he], hc⟩
+
+/-- Conservation under the validator precondition, spelled out per object: if rendering succeeds with
+validation on, every object that passed the path and CEL filters sits in the phase whose name is
+EXACTLY its phase annotation, and that phase is part of the result. -/
+theorem validated_survivor_placed (σ : Oracle) (hσ : σ.Valid) (pkg : Pkg) (hw : WellFormed pkg)
+    (files' : List File) (h : files' ~ pkg.files) (ps : List Phase)
+    (hr : render σ { pkg with files := files' } = .ok ps) (hv : pkg.validate = true)
+    {o : Obj} (ho : o ∈ survivors pkg) :
+    ∃ p ∈ ps, p.name = phaseOf o ∧ finalize o ∈ p.objs := by
+  rw [render_eq_spec σ hσ pkg hw files' h, spec] at hr
+  cases hf : mustFail pkg with
+  | some e => simp [hf] at hr
+  | none =>
+    simp only [hf, Except.ok.injEq] at hr
+    subst hr
+    have hk := survivors_phase_known hv hf ho
+    have hmem : finalize o ∈ ((survivors pkg).filter fun o' => phaseOf o' == phaseOf o).map finalize :=
+      mem_map.mpr ⟨o, mem_filter.mpr ⟨ho, by simp⟩, rfl⟩
+    refine ⟨{ name := phaseOf o,
+              objs := ((survivors pkg).filter fun o' => phaseOf o' == phaseOf o).map finalize }, ?_, rfl, hmem⟩
+    simp only [specPhases, mem_filterMap]
+    refine ⟨phaseOf o, hk, ?_⟩
+    have hne : ((((survivors pkg).filter fun o' => phaseOf o' == phaseOf o).map finalize).length != 0) = true := by
+      rw [bne_iff_ne]
+      intro hz
+      rw [length_eq_zero_iff.mp hz] at hmem
+      simp at hmem
+    rw [if_pos hne]
+
 /-- the survivors are listed by ascending path (the order of `RenderObjectsWithFilter`: `/` sorts
 before every other character), documents of one file in document order -/
 theorem survivors_path_order (pkg : Pkg) :
@@ -312,13 +373,45 @@ theorem oracle_valid (s : Pko.Drv.C13.Scn) : (Pko.Drv.C13.oracle s).Valid := by
 
 /-- The model satisfies the monitored predicate: for every scenario whose package is well formed,
 the structured output of the model passes every facet the monitor checks against the specification
-(`Pko.Drv.C13.monitor` = parse the implementation's line, then `check (specOut s)`). -/
+(`Pko.Drv.C13.monitor` = parse the implementation's line, then `vanished s`, then `check (specOut s)`). -/
 theorem monitor_model (s : Pko.Drv.C13.Scn) (hw : WellFormed (Pko.Drv.C13.toPkg s)) :
     Pko.Drv.C13.check (Pko.Drv.C13.specOut s) (Pko.Drv.C13.modelOut s) = none := by
   have : render (Pko.Drv.C13.oracle s) (Pko.Drv.C13.toPkg s) = spec (Pko.Drv.C13.toPkg s) :=
     render_eq_spec (Pko.Drv.C13.oracle s) (oracle_valid s) (Pko.Drv.C13.toPkg s) hw _ (Perm.refl _)
   rw [Pko.Drv.C13.modelOut, this]
   exact check_self _
+
+/-- …and the clause stated without the validator (`Pko.Drv.C13.vanished`: validation on, all other
+stages fine, success reported ⇒ every object that survived the filters is in the output): the model
+never lets a validated object vanish. -/
+theorem vanished_model (s : Pko.Drv.C13.Scn) (hw : WellFormed (Pko.Drv.C13.toPkg s)) :
+    Pko.Drv.C13.vanished s (Pko.Drv.C13.modelOut s) = none := by
+  have hr : render (Pko.Drv.C13.oracle s) (Pko.Drv.C13.toPkg s) = spec (Pko.Drv.C13.toPkg s) :=
+    render_eq_spec (Pko.Drv.C13.oracle s) (oracle_valid s) (Pko.Drv.C13.toPkg s) hw _ (Perm.refl _)
+  unfold Pko.Drv.C13.vanished Pko.Drv.C13.modelOut
+  cases hs : render (Pko.Drv.C13.oracle s) (Pko.Drv.C13.toPkg s) with
+  | error e => rfl
+  | ok ps =>
+    simp only [Pko.Drv.C13.toOut]
+    cases hv : (Pko.Drv.C13.toPkg s).validate with
+    | false => rfl
+    | true =>
+      have hf : mustFail (Pko.Drv.C13.toPkg s) = none := by
+        rw [hr, spec] at hs
+        cases hm : mustFail (Pko.Drv.C13.toPkg s) with
+        | none => rfl
+        | some e => simp [hm] at hs
+      have hcons := (collect_conserves (Pko.Drv.C13.oracle s) (oracle_valid s) (Pko.Drv.C13.toPkg s) hw
+        _ (Perm.refl _) ps hs).2.1 hv
+      have hids : ((survivors (Pko.Drv.C13.toPkg s)).map fun o => o.id)
+          ~ Pko.Drv.C13.idsOf (ps.map fun p =>
+              { name := Pko.Drv.C13.esc p.name, objs := p.objs.map (Pko.Drv.C13.toOObj s.name s.inst) }) := by
+        rw [idsOf_toOut]
+        have := (hcons.map fun o => o.id).symm
+        rw [map_map] at this
+        exact this
+      simp only [Bool.not_true, Bool.false_eq_true, ↓reduceIte, mustFail_novalidate hf, msub_perm hids,
+        isEmpty_nil]
 
 /-! ## The unfixed code (finding C13-a) at model level -/
 
@@ -364,5 +457,21 @@ example : WellFormed demoPkg ∧ mustFail demoPkg = none := by
 /-- …and a failure is reachable too (a template that does not execute). -/
 example : mustFail { demoPkg with files := demoPkg.files.map fun f => { f with tmplExecs := false } }
     = some .tmplexec := by decide
+
+/-- A phase annotation padded with white space names no phase: with validation on the package is
+rejected (never rendered without the object) … -/
+def paddedPkg (validate : Bool) : Pkg :=
+  { demoPkg with validate := validate, cpaths := [], files := [
+      { path := "b.yaml".toList, tmplParses := true, tmplExecs := false,
+        own := { ok := true, objs := [demoObj 1 "one", demoObj 2 "two ", demoObj 3 "two\n"] },
+        out := { ok := true, objs := [] } }] }
+
+example : mustFail (paddedPkg true) = some .validate := by decide
+
+/-- … and only with validation OFF (objects that were never validated: outside the property's premise)
+does the collector drop it. -/
+example : mustFail (paddedPkg false) = none ∧
+    (specPhases (paddedPkg false)).map (fun p => (p.name, p.objs.map fun o => o.id)) = [("one", [1])] := by
+  decide +kernel
 
 end Pko.Props.C13
